@@ -46,7 +46,11 @@ func (h *Histogram) MarshalJSON() ([]byte, error) {
 		if i > 0 {
 			buf.WriteString(", ")
 		}
-		if _, err := fmt.Fprintf(&buf, "\"%d\": %d", h.Buckets[i], h.Counts[i]); err != nil {
+		var count uint64
+		if i < len(h.Counts) { // no result added yet
+			count = h.Counts[i]
+		}
+		if _, err := fmt.Fprintf(&buf, "\"%d\": %d", h.Buckets[i], count); err != nil {
 			return nil, err
 		}
 	}
